@@ -14,8 +14,9 @@ from . import _quotatree as Q
 def _mc_configs(ctx):
     w = ctx.pick(2, 4)
     quick = [
-        {"cfg": "QuotaTree_mc_mem.cfg", "workers": w, "coverage": True, "timeout": 900},
-        {"cfg": "QuotaTree_mc_cpu2.cfg", "workers": w, "coverage": True, "timeout": 900},
+        {"cfg": "QuotaTree_mc_cov.cfg", "workers": 1, "coverage": True, "timeout": 900},   # tiny, -coverage 1
+        {"cfg": "QuotaTree_mc_mem.cfg", "workers": w, "timeout": 900},
+        {"cfg": "QuotaTree_mc_cpu2.cfg", "workers": w, "timeout": 900},
     ]
     if ctx.quick:
         return quick
@@ -60,7 +61,7 @@ def run(ctx):
             else:
                 raise InfraError("TLC run %s ended unexpectedly: %s" % (c["cfg"], res.summary()))
         if c.get("coverage"):
-            tlc.require_coverage(res, ["Create", "Update"])
+            tlc.require_coverage(res, ["NewGroup", "NewSubGroup", "UpdateDirect", "UpdateMerged"])
     cov = {}
     for c, res in mcs:
         if c.get("coverage"):
